@@ -1076,6 +1076,7 @@ pub fn drop_kept(sim: &Sim, id: Id) {
         match &mut s.k {
             K::Timer(t) => t.disp.take().map(|d| Box::new(d) as Box<dyn std::any::Any>),
             K::Trans(t) => t.disp.take().map(|d| Box::new(d) as Box<dyn std::any::Any>),
+            K::Sig(t) => t.disp.take().map(|d| Box::new(d) as Box<dyn std::any::Any>),
             K::Generic(g) => {
                 if !s.inserted {
                     g.released = true;
